@@ -1,79 +1,32 @@
-use h263_rs::parser::H263Reader;
-use h263_rs::{DecoderOption, H263State};
+// Triage experiments for the deblock crate (NOT part of any check; they document the failing inputs of findings D10 / D11).
+use h263_rs_deblock::deblock::deblock;
 
-struct W { bits: Vec<u8> }
-impl W {
-    fn new() -> Self { W { bits: vec![] } }
-    fn put(&mut self, v: u32, n: u32) { for i in (0..n).rev() { self.bits.push(((v >> i) & 1) as u8); } }
-    fn s(&mut self, s: &str) { for c in s.chars() { if c=='0' {self.bits.push(0)} else if c=='1' {self.bits.push(1)} } }
-    fn bytes(&self) -> Vec<u8> { let mut o = vec![]; let mut b = self.bits.clone(); while b.len()%8!=0 {b.push(0);} for c in b.chunks(8) { let mut v=0u8; for x in c { v=(v<<1)|x; } o.push(v);} o }
-}
-// sorenson header: ver, tr, custom8 w,h, type, q
-fn hdr(w: &mut W, ver: u32, tr: u32, wd: u32, ht: u32, ty: u32, q: u32) {
-    w.put(1, 17); w.put(ver, 5); w.put(tr, 8); w.put(0, 3); w.put(wd, 8); w.put(ht, 8); w.put(ty, 2); w.put(0,1); w.put(q,5); w.put(0,1);
-}
-fn intra_mb_i(w: &mut W, dc: u32) { w.s("1"); w.s("0011"); for _ in 0..6 { w.put(dc, 8); } }
-// P-frame intra MB: COD=0, MCBPC 00011 (intra, 00), CBPY 0011
-fn intra_mb_p(w: &mut W, dc: u32) { w.s("0"); w.s("00011"); w.s("0011"); for _ in 0..6 { w.put(dc, 8); } }
-fn uncoded(w: &mut W) { w.s("1"); }
-
-fn dec(st: &mut H263State, data: &[u8]) -> Result<(), h263_rs::Error> {
-    let mut r = H263Reader::from_source(data);
-    st.decode_next_picture(&mut r)
+#[test]
+fn d11_fewer_than_two_rows() {
+    // 16x1 image: `height - 2` on usize underflows (debug: panic "attempt to subtract with overflow")
+    let data = vec![10u8; 16];
+    let out = deblock(&data, 16, 5);
+    assert_eq!(out.len(), 16);
+    // 0 rows
+    let out = deblock(&[], 16, 5);
+    assert_eq!(out.len(), 0);
 }
 
 #[test]
-fn d1_too_many_mbs() {
-    let mut w = W::new(); hdr(&mut w, 0, 0, 16, 16, 0, 5); intra_mb_i(&mut w, 100); intra_mb_i(&mut w, 50);
-    let mut st = H263State::new(DecoderOption::SORENSON_SPARK_BITSTREAM);
-    println!("{:?}", dec(&mut st, &w.bytes()).map_err(|e| e.to_string()));
-}
-#[test]
-fn d2_zero_width() {
-    let mut w = W::new(); hdr(&mut w, 0, 0, 0, 16, 0, 5); intra_mb_i(&mut w, 100);
-    let mut st = H263State::new(DecoderOption::SORENSON_SPARK_BITSTREAM);
-    println!("{:?}", dec(&mut st, &w.bytes()).map_err(|e| e.to_string()));
-}
-#[test]
-fn d3_overflow_level() {
-    // version 1, intra MB with luma0 coded: CBPY for [true,false,false,false] intra = 00010 ; escape tcoef: 0000011 ; then 1 (11 bit) last=1 run=0 level=1023
-    let mut w = W::new(); hdr(&mut w, 1, 0, 16, 16, 0, 31);
-    w.s("1"); w.s("00010");
-    w.put(100,8); w.s("0000011"); w.s("1"); w.s("1"); w.put(0,6); w.put(1023, 11);
-    for _ in 0..5 { w.put(100, 8); }
-    let mut st = H263State::new(DecoderOption::SORENSON_SPARK_BITSTREAM);
-    println!("{:?}", dec(&mut st, &w.bytes()).map_err(|e| e.to_string()));
-    let p = st.get_last_picture().unwrap();
-    println!("{:?}", &p.as_yuv().0[..8]);
-}
-#[test]
-fn d4_ref_other_size() {
-    let mut st = H263State::new(DecoderOption::SORENSON_SPARK_BITSTREAM);
-    let mut w = W::new(); hdr(&mut w, 0, 0, 32, 32, 0, 5); for _ in 0..4 {intra_mb_i(&mut w, 100);}
-    println!("{:?}", dec(&mut st, &w.bytes()).map_err(|e| e.to_string()));
-    let mut w = W::new(); hdr(&mut w, 0, 1, 16, 16, 1, 5); for _ in 0..1 { uncoded(&mut w); }
-    println!("{:?}", dec(&mut st, &w.bytes()).map_err(|e| e.to_string()));
-}
-#[test]
-fn d5_disposable() {
-    let mut st = H263State::new(DecoderOption::SORENSON_SPARK_BITSTREAM);
-    let mut w = W::new(); hdr(&mut w, 0, 0, 16, 16, 0, 5); intra_mb_i(&mut w, 100);
-    println!("I: {:?}", dec(&mut st, &w.bytes()).map_err(|e| e.to_string()));
-    let mut w = W::new(); hdr(&mut w, 0, 1, 16, 16, 2, 5); intra_mb_p(&mut w, 20);
-    println!("D: {:?}", dec(&mut st, &w.bytes()).map_err(|e| e.to_string()));
-    println!("last luma0 {:?}", st.get_last_picture().unwrap().as_yuv().0[0]);
-    let mut w = W::new(); hdr(&mut w, 0, 2, 16, 16, 1, 5); uncoded(&mut w);
-    println!("P: {:?}", dec(&mut st, &w.bytes()).map_err(|e| e.to_string()));
-    println!("last luma0 {:?}", st.get_last_picture().unwrap().as_yuv().0[0]);
-}
-#[test]
-fn c15_two_pictures_one_reader() {
-    let mut w = W::new(); hdr(&mut w, 0, 0, 16, 16, 0, 5); intra_mb_i(&mut w, 100);
-    let mut all = w.bytes();
-    let mut w = W::new(); hdr(&mut w, 0, 1, 16, 16, 0, 5); intra_mb_i(&mut w, 50);
-    all.extend(w.bytes());
-    let mut st = H263State::new(DecoderOption::SORENSON_SPARK_BITSTREAM);
-    let mut r = H263Reader::from_source(&all[..]);
-    println!("1: {:?}", st.decode_next_picture(&mut r).map_err(|e| e.to_string()));
-    println!("2: {:?}", st.decode_next_picture(&mut r).map_err(|e| e.to_string()));
+fn d10_vector_vs_scalar() {
+    // 8 columns x 16 rows: the horizontal edge at row 8 is filtered by the vector kernel (8 columns = one SIMD group);
+    // 9..15 columns would put column 8.. into the scalar remainder. Use width 16 (two vector groups) and width 7 (scalar only)
+    // with the same column pattern A,B,C,D = 0,10,5,15 and strength 12 and compare.
+    let pat = [0u8, 10, 5, 15];
+    let mk = |w: usize| {
+        let mut v = vec![0u8; w * 16];
+        for (r, p) in (6..10).zip(pat.iter()) { for x in 0..w { v[r * w + x] = *p; } }
+        v
+    };
+    let a = deblock(&mk(8), 8, 12);   // vector path
+    let b = deblock(&mk(7), 7, 12);   // scalar path
+    let col_a: Vec<u8> = (6..10).map(|r| a[r * 8]).collect();
+    let col_b: Vec<u8> = (6..10).map(|r| b[r * 7]).collect();
+    println!("vector {:?} scalar {:?}", col_a, col_b);
+    assert_eq!(col_a, col_b);
 }
